@@ -201,3 +201,52 @@ def c04_rejected_block_writes_nothing(ctx, v):
         return v.undecided("no early-return path found")
     v.covers_total += 1
     v.covers_sat += 1
+
+
+def c04_wind_failure_request(ctx, v):
+    """Blockchain::wind_chain, one step: the block at current_wind_index of a candidate chain of
+    2..=3 (thorough 4) blocks fails validation after the blocks behind it (indices above it) were
+    already wound.  The step must ask for exactly those blocks to be unwound — Unwind(0, true,
+    new_chain[current_wind_index + 1 ..], _) — in that order, and never for the failing block
+    itself, which was never applied to the ledger (unwinding it would make its inputs spendable
+    again)."""
+    from .models import as_enum
+    sizes = (2, 3) if ctx.tier == "quick" else (2, 3, 4)
+    ok = 0
+    for n_new in sizes:
+        for idx in range(0, n_new - 1):
+            ex, args, valid = _setup(ctx, n_new, 1, 2 * n_new + 6)
+            chain_ref, new_ref, old_ref, storage, cfg = args
+            st = S.State()
+            st.pc.append(z3.Not(valid[idx]))
+            body, co = L.coroutine(ctx, ex, r"blockchain::<impl at [^>]*>::wind_chain", [chain_ref, new_ref, old_ref, S.const_int(idx, "usize"), z3.BoolVal(False), storage, cfg])
+            outs = ex.run(body, [S.Ref(S.Cell(co), (), True), S.Opaque("cx", "Context")], st)
+            v.paths += len(outs)
+            new_items = ex.deref_value(new_ref).items
+            want = new_items[idx + 1:]
+            for o in outs:
+                if o.kind in ("unsupported", "unwound", "path-limit"):
+                    return v.undecided("|new|=%d index=%d: %s %s" % (n_new, idx, o.kind, o.info))
+                if o.kind == "panic":
+                    L.report_panic(v, ex, o, "|new|=%d index=%d: wind_chain panics: %s" % (n_new, idx, o.info))
+                    continue
+                if o.kind != "return" or not ex.feasible(o.pc):
+                    continue
+                res = L.ready_value(ex, o)
+                v.queries += 1
+                if not (isinstance(res, S.EnumV) and res.variant == "Unwind"):
+                    v.fail("|new|=%d index=%d: a validation failure after earlier blocks were wound does not ask for them to be unwound (%s)" % (n_new, idx, getattr(res, "variant", res)))
+                    continue
+                f = res.payload["Unwind"].fields
+                lst = ex.deref_value(f[2]) if isinstance(f[2], S.Ref) else f[2]
+                if not isinstance(lst, S.Seq):
+                    return v.undecided("unwind list is not a concrete-length sequence")
+                same = len(lst.items) == len(want) and all(not ex.feasible(o.pc, z3.Not(value_eq(ex, a, b))) for a, b in zip(lst.items, want))
+                start_ok = isinstance(f[0], S.I) and not ex.feasible(o.pc, f[0].bv != 0)
+                if not same or not start_ok:
+                    v.fail("|new|=%d index=%d: the unwind request lists %d block(s) starting at position %s; the blocks actually wound are the %d behind the failing one" %
+                           (n_new, idx, len(lst.items), "0" if start_ok else "?", len(want)))
+                    continue
+                ok += 1
+    v.covers_total += 1
+    v.covers_sat += 1 if ok else 0
